@@ -223,6 +223,7 @@ func (n *Node) Path() []pagedrv.Op {
 
 // Spec describes one search.
 type Spec struct {
+	Seed      []pagedrv.Op // history executed before the search starts (non-initial start state); must end without an open transaction
 	Cfg       pagedrv.Cfg
 	Alphabet  []pagedrv.Op
 	MaxDepth  int
@@ -245,6 +246,9 @@ type Stats struct {
 func BFS(ctx *core.Ctx, pool *par.Pool, spec Spec) Stats {
 	var st Stats
 	root := &Node{}
+	for _, op := range spec.Seed { // the seed is part of every path (replay documents stay self-contained)
+		root = &Node{Parent: root, Op: op}
+	}
 	seen := map[string]*Node{}
 	frontier := []*Node{root}
 	first := true
